@@ -46,23 +46,17 @@ def _ob_clean(nmax, scale=1.0, nmin=2):
         # a composite curve as the tables hold it: temperatures strictly descending, enthalpy non-increasing downwards
         y = h.reals("T", n)
         x = h.reals("H", n)
-        # TOLSAFE: enthalpies within +-1000 kW; a step is zero or at least 0.02 kW (the code's flatness tests are np.isclose with
-        # its default relative tolerance 1e-5 and 'variance < 1e-6'); temperatures at least 1 K apart
+        # TOLSAFE: a step is zero or at least 0.02 kW (the code's flatness tests are 'within tol' and 'variance < 1e-6'); temperatures
+        # at least 1 K apart; enthalpies within +-1000 * scale kW
         for i in range(n):
             h.assume(And(x[i] <= 1000 * scale, x[i] >= -1000 * scale))
         for i in range(n - 1):
             h.assume(y[i] - y[i + 1] >= 1)
             h.assume(x[i] >= x[i + 1])
-            # interior steps may stay small at large magnitudes (the interior test of the code is absolute); the two END steps scale with
-            # the magnitude because the end trimming of the code is relative (np.isclose's default rtol)
-            if scale == 1.0:
-                h.assume(Or(x[i] == x[i + 1], x[i] - x[i + 1] >= 0.02))
-            elif 0 < i < n - 2:
-                h.assume(Or(x[i] == x[i + 1], x[i] - x[i + 1] >= 0.02))
-            else:
-                h.assume(x[i] - x[i + 1] >= 0.02 * scale)          # no flat run at the ends in the large-magnitude obligation
+            # a step is zero or at least 0.02 kW whatever the magnitude of the enthalpies: every flatness test is absolute (tol)
+            h.assume(Or(x[i] == x[i + 1], x[i] - x[i + 1] >= 0.02))
             h.assume(And(y[i] <= 1000, y[i + 1] >= -1000))
-        h.assume(x[0] - x[n - 1] >= 0.02 * scale)                             # not an entirely flat curve
+        h.assume(x[0] - x[n - 1] >= 0.02)                                     # not an entirely flat curve
         yk, xk = misc.clean_composite_curve(_arr(h, y), _arr(h, x))
         yk, xk = list(yk), list(xk)
         m = len(xk)
@@ -114,10 +108,8 @@ def ob_clean_gcc(h):
         h.assume(And(x[i] >= 0, x[i] <= 1000000, y[i] <= 1000, y[i] >= -1000))
     for i in range(n - 1):
         h.assume(y[i] - y[i + 1] >= 1)
-    h.assume(Or(x[0] - x[1] >= 20, x[1] - x[0] >= 20))         # clearly non-flat ends (the end trimming of the code is relative)
-    h.assume(Or(x[3] - x[4] >= 20, x[4] - x[3] >= 20))
-    for i in (1, 2, 3):
-        h.assume(And(Or(x[i] - x[0] >= 20, x[0] - x[i] >= 20), Or(x[i] - x[4] >= 20, x[4] - x[i] >= 20)))
+    h.assume(Or(x[0] - x[1] >= 0.02, x[1] - x[0] >= 0.02))     # non-flat ends: the first and last points are the first and last non-flat points
+    h.assume(Or(x[3] - x[4] >= 0.02, x[4] - x[3] >= 0.02))
     for i in (1, 2):                                            # interior steps: zero or at least 0.02 kW, however large the enthalpies are
         h.assume(Or(x[i] - x[i + 1] >= 0.02, x[i + 1] - x[i] >= 0.02, x[i] == x[i + 1]))
     yk, xk = misc.clean_composite_curve(_arr(h, y), _arr(h, x))
@@ -238,8 +230,8 @@ def obligations():
         Obligation("C17.clean.b", _ob_clean(4), kind="bounded", bound="composite curves of 2..4 points (temperatures >= 1 K apart, enthalpy steps 0 or > 10 tol), all symbolic",
                    functions=fc, max_paths=200000, expect=("first_kept_is_end_of_leading_flat_run", "kept_points_are_original_points_in_order")),
         Obligation("C17.clean.large.b", _ob_clean(4, scale=1000.0, nmin=4), kind="bounded", functions=fc, max_paths=200000,
-                   bound="4-point curves with enthalpies up to 1e6 kW whose interior step may be as small as 0.02 kW",
-                   doc="interior vertices survive at large enthalpy magnitudes (the collinearity test is absolute, not relative)"),
+                   bound="4-point curves with enthalpies up to 1e6 kW, every step zero or at least 0.02 kW",
+                   doc="end points and interior vertices survive at large enthalpy magnitudes (every flatness test is absolute, not relative)"),
         Obligation("C17.clean.gcc.b", ob_clean_gcc, kind="bounded", functions=fc, max_paths=200000, bound="5-point non-monotone (grand composite) curves, enthalpies up to 1e6 kW, interior steps down to 0.02 kW",
                    doc="turning points (pocket noses) of a net curve survive the cleaning at any enthalpy magnitude"),
         Obligation("C17.clean.flat.b", ob_clean_flat, kind="bounded", bound="2..3 points, constant enthalpy", functions=[misc.clean_composite_curve_ends]),
